@@ -138,6 +138,22 @@ type logLine struct {
 	Idx  int      `json:"idx"`
 }
 
+// filterCases is a debugging aid: VERIF_CASEFILTER=key=value keeps the cases whose parameter matches.
+func filterCases(cases []Case) []Case {
+	f := os.Getenv("VERIF_CASEFILTER")
+	kv := strings.SplitN(f, "=", 2)
+	if f == "" || len(kv) != 2 {
+		return cases
+	}
+	var keep []Case
+	for _, c := range cases {
+		if fmt.Sprint(c.P[kv[0]]) == kv[1] {
+			keep = append(keep, c)
+		}
+	}
+	return keep
+}
+
 // ChildMain runs cases[from:to) of property id, appending BEGIN/END records
 // to logPath. No recover(): a panic anywhere kills the process and the parent
 // attributes the crash to the case whose BEGIN has no END.
@@ -147,7 +163,7 @@ func ChildMain(id, tier string, seed int64, from, to int, logPath string) int {
 		fmt.Fprintln(os.Stderr, "unknown property", id)
 		return 2
 	}
-	cases := p.Cases(tier, seed)
+	cases := filterCases(p.Cases(tier, seed))
 	if to > len(cases) {
 		to = len(cases)
 	}
@@ -399,6 +415,7 @@ func ParentMain(id, tier string, seed int64) int {
 			cases = cases[:n]
 		}
 	}
+	cases = filterCases(cases)
 	exe, _ := os.Executable()
 	jobs := p.Jobs
 	if jobs == 0 {
@@ -745,7 +762,7 @@ func decide(p *Property, tier string, seed int64, cases []Case, results map[int]
 	if p.MinDistinct != nil && p.MinDistinct[tier] > 0 {
 		minD = p.MinDistinct[tier]
 	}
-	if os.Getenv("VERIF_MAXCASES") != "" {
+	if os.Getenv("VERIF_MAXCASES") != "" || os.Getenv("VERIF_CASEFILTER") != "" {
 		minD = 1
 	}
 	inconclusiveRun := false
